@@ -249,4 +249,63 @@ example : ¬ Spec.variablesInAllowedPosition wSchema v3a := fun h =>
 example : Spec.variablesInAllowedPosition wSchema ⟨[opV [vInt] 1 [fld (some "y") "a" [argV "x" "v"]]]⟩ :=
   (rule_variables_in_allowed_position_iff wSchema Fixes.all rfl rfl _).mp (by unfold Silent; decide +kernel)
 
+/-! ### per-operation wording: on documents with unique operation names the key-based clauses are the clauses of
+    the specification, one operation definition at a time -/
+
+private theorem opKey_unique {l : List Def} (h : (l.filterMap Def.opKey?).Nodup) {a b : Def} {o : String}
+    (ha : a ∈ l) (hb : b ∈ l) (hka : a.opKey? = some o) (hkb : b.opKey? = some o) : a = b := by
+  induction l with
+  | nil => cases ha
+  | cons x xs ih =>
+    have hmem : ∀ y ∈ xs, y.opKey? = some o → o ∈ xs.filterMap Def.opKey? :=
+      fun y hy hk => List.mem_filterMap.mpr ⟨y, hy, hk⟩
+    rcases List.mem_cons.mp ha with rfl | ha' <;> rcases List.mem_cons.mp hb with rfl | hb'
+    · rfl
+    · rw [List.filterMap_cons, hka, List.nodup_cons] at h
+      exact absurd (hmem _ hb' hkb) h.1
+    · rw [List.filterMap_cons, hkb, List.nodup_cons] at h
+      exact absurd (hmem _ ha' hka) h.1
+    · apply ih _ ha' hb'
+      rw [List.filterMap_cons] at h
+      cases hx : x.opKey? with
+      | none => rw [hx] at h; exact h
+      | some k => rw [hx, List.nodup_cons] at h; exact h.2
+
+private theorem usedIn_iff (d : Doc) (o x : String) :
+    UsedIn d o x ↔ ∃ df ∈ d.defs, df.opKey? = some o ∧ UsedByOp d df x := by
+  unfold UsedIn UsedByOp UsedDirectly OpReaches OpSpreads
+  constructor
+  · rintro (⟨df, h1, h2, h3⟩ | ⟨f, ⟨g, ⟨df, h1, h2, h3⟩, hr⟩, hu⟩)
+    · exact ⟨df, h1, h2, Or.inl h3⟩
+    · exact ⟨df, h1, h2, Or.inr ⟨f, ⟨g, h3, hr⟩, hu⟩⟩
+  · rintro ⟨df, h1, h2, (h3 | ⟨f, ⟨g, h3, hr⟩, hu⟩)⟩
+    · exact Or.inl ⟨df, h1, h2, h3⟩
+    · exact Or.inr ⟨f, ⟨g, ⟨df, h1, h2, h3⟩, hr⟩, hu⟩
+
+/-- 5.8.3 per operation definition -/
+theorem no_undefined_variables_per_operation (d : Doc) (hk : Spec.uniqueOpKeys d) :
+    Spec.noUndefinedVariables d ↔ Spec.noUndefinedVariablesPerOp d := by
+  unfold Spec.noUndefinedVariables Spec.noUndefinedVariablesPerOp
+  simp only [usedIn_iff, DefinedIn]
+  constructor
+  · intro h df hdf hs x hu
+    obtain ⟨o, ho⟩ := Option.isSome_iff_exists.mp hs
+    obtain ⟨df', hdf', ho', hx⟩ := h o x ⟨df, hdf, ho, hu⟩
+    rw [opKey_unique hk hdf hdf' ho ho']; exact hx
+  · rintro h o x ⟨df, hdf, ho, hu⟩
+    exact ⟨df, hdf, ho, h df hdf (by rw [ho]; rfl) x hu⟩
+
+/-- 5.8.4 per operation definition -/
+theorem no_unused_variables_per_operation (d : Doc) (hk : Spec.uniqueOpKeys d) :
+    Spec.noUnusedVariables d ↔ Spec.noUnusedVariablesPerOp d := by
+  unfold Spec.noUnusedVariables Spec.noUnusedVariablesPerOp
+  simp only [usedIn_iff, DefinedIn]
+  constructor
+  · intro h df hdf hs x hx
+    obtain ⟨o, ho⟩ := Option.isSome_iff_exists.mp hs
+    obtain ⟨df', hdf', ho', hu⟩ := h o x ⟨df, hdf, ho, hx⟩
+    rw [opKey_unique hk hdf hdf' ho ho']; exact hu
+  · rintro h o x ⟨df, hdf, ho, hx⟩
+    exact ⟨df, hdf, ho, h df hdf (by rw [ho]; rfl) x hx⟩
+
 end PyGql.Props.C06
